@@ -62,8 +62,9 @@ func (g *gzipResponseWriter) commitHeader() {
 }
 
 func (g *gzipResponseWriter) Write(b []byte) (int, error) {
-	// Check if adding this data would exceed max buffer size
-	if g.buf.Len()+len(b) > MaxCompressionBufferSize {
+	// Check if adding this data would exceed max buffer size (once exceeded, everything
+	// that follows is streamed too: Finish no longer looks at the buffer)
+	if g.bufferExceeded || g.buf.Len()+len(b) > MaxCompressionBufferSize {
 		// Mark as exceeded and fall back to streaming uncompressed
 		if !g.bufferExceeded {
 			g.bufferExceeded = true
